@@ -91,6 +91,8 @@ class Renderer:
     if k in ("zext", "sext", "trunc"): return f"{k}( {self.ex(e[1])}, {e[2]} )"
     if k == "red": return f"reduce_{e[1]}( {self.ex(e[2])} )"
     if k == "ifexp": return f"({self.ex(e[2])} if {self.ex(e[1])} else {self.ex(e[3])})"
+    if k == "arg": return e[1]
+    if k == "fcall": return f"{e[1]}( " + ", ".join(self.ex(a) for a in e[2]) + " )"
     raise ValueError(k)
 
   def stmts(self, ss, kind, ind):
@@ -202,7 +204,10 @@ class Renderer:
       lines = [f"    {deco}", f"    def {b['name']}():"] + (self.stmts(b["stmts"], b["kind"], 3) or ["      pass"])
       blocks.append(lines)
     for f in c.get("funcs", []):                 # helper functions may be defined before or after their callers
-      lines = ["    @s.func", f"    def {f['name']}():"] + (self.stmts(f["stmts"], "comb", 3) or ["      pass"])
+      if "ret" in f:                                 # value-returning helper with parameters
+        lines = ["    @s.func", f"    def {f['name']}( " + ", ".join(pn for pn, _ in f["params"]) + " ):", f"      return {self.ex(f['ret'])}"]
+      else:
+        lines = ["    @s.func", f"    def {f['name']}():"] + (self.stmts(f["stmts"], "comb", 3) or ["      pass"])
       blocks.insert(self.rng.randrange(len(blocks) + 1) if self.v.get("perm_blocks") else (0 if f.get("early") else len(blocks)), lines)
     if self.v.get("perm_stmts"):
       self.rng.shuffle(body)
